@@ -199,7 +199,12 @@ class Tables:
         return self._of(self.cases, x, lambda a, b: a == b, add)
 
     def fail(self, x, add=True):
-        return self._of(self.fails, x, lambda a, b: a == b, add)     # Failure.__eq__: class, operation, unique key
+        # the identity of a failure, stated here and NOT read off `Failure.__eq__` (that method is code under test): same
+        # class, same operation, same distinguishing datum of the class
+        def ident(f):
+            return (type(f).__name__, getattr(f, "operation", None),
+                    getattr(f, "status_code", None) if type(f).__name__ == "ServerError" else getattr(f, "_unique_key", None))
+        return self._of(self.fails, x, lambda a, b: ident(a) == ident(b), add)
 
     def sample(self, x, add=True):
         return self._of(self.samples, x, lambda a, b: a == b, add)
